@@ -845,3 +845,16 @@ package orda
 //@ func (*jsonObject).deleteCommonInObject
 //@   bounded doctree json values are outside the Map contracts (stated for *timedNode values)
 //@   props C01 C02 C03
+
+// PatchByJSON executes the edit script that the jsondiff library computes; what that library returns is not stated by
+// any contract within reach, so the clause "the document equals the target afterwards" is checked by a bounded
+// stand-in on the real code (/verif/bounded/docpatch_test.go: every ordered pair of a finite family of objects).
+//@ func (*document).PatchByJSON
+//@   bounded docpatch the edit script comes from a third-party diff library (jsondiff) whose output no contract states
+//@   props C19
+//@ func (*document).Patch
+//@   bounded docpatch the edit script comes from a third-party diff library (jsondiff) whose output no contract states
+//@   props C19
+//@ func (*document).patchEach
+//@   bounded docpatch the edit script comes from a third-party diff library (jsondiff) whose output no contract states
+//@   props C19
